@@ -7,6 +7,6 @@ git -C $W checkout -q -f --detach $HEAD && git -C $W clean -fdq
 cp /repo/librebound*.so $W/ 2>/dev/null; git -C $W apply "$PATCH" || { echo "PATCH DOES NOT APPLY"; exit 2; }
 cd /verif
 for P in "$@"; do
-  VERIF_REPO=$W ./vcheck $P --jobs ${JOBS:-12} 2>&1 | grep -E "^VIOLATION|^KNOWN|^C[0-9]+:|TASK-ERROR" | cut -c1-260 | sed "s/^/[$P] /" | head -${LINES_MAX:-8}
+  VERIF_NO_EVIDENCE=1 VERIF_REPO=$W ./vcheck $P --jobs ${JOBS:-12} 2>&1 | grep -E "^VIOLATION|^KNOWN|^C[0-9]+:|TASK-ERROR" | cut -c1-260 | sed "s/^/[$P] /" | head -${LINES_MAX:-8}
 done
 git -C $W checkout -q -f --detach $HEAD
